@@ -783,7 +783,7 @@ def run(index: RepoIndex, rep) -> None:
               f'functional_step runs the transition {len(tc)} times', 'one transition')
     C = sw['copy']
     rets = [e for e in w.events if e.kind == 'return' and e.value is not None]
-    ok = len(rets) == 1 and C is not None and sw['copy_def'] == f'fast_copy({sp})'
+    ok = len(rets) == 1 and C is not None and sw['copy_deep']
     got = src(w.expand(rets[0].value, ren, stop=[C] if C else [])) if rets else ''
     want = f'({C}, self._reward_function(S, A, {C}), self._termination_function(S, A, {C}))'
     rep.check(ok and got == want, 'C12.R5', GW, 'GridWorld.functional_step', fs.node.lineno,
